@@ -19,12 +19,13 @@
     schedd-accept <n> <total_in> <total_out> <ultra> <events>
         events: `;`-separated  K,t,name,wu,os,eof,pt,pd,in,scan,retr,emit,reord,order,unord,head,tail
         -> ok lines=… rchecks=… uchecks=… headdeltas=… reorderdeltas=… taildeltas=… | reject <line#> <why>
-    schedd-acceptw <n> <total_in> <total_out> <ultra> <starve_min> <events>
+    schedd-acceptw <n> <total_in> <total_out> <ultra> <lat_min> <hung 0|1> <events>
         the same events (thread ids used) replayed against the projection of the
         refined model Model.SchedDW (workers, next_task, sched_mutex, sched_cond):
-        -> ok lines=… steps=… workers=… wakeups=… signals=… exits=… | reject <line#> <why>
-        starve_min > 0: also reject when that many signalling unlocks found a
-        waiting worker and no waiter ever came back before the end (0 = off)
+        -> ok lines=… steps=… workers=… wakeups=… signals=… maxlat=… exits=… | reject <line#> <why>
+        lat_min > 0: also reject when a worker that xsignal made runnable has not
+        come back lat_min lines later (0 = off); hung = 1: the run was killed
+        after a time-out, explain the last line
 -/
 import Std.Data.HashSet
 import Std.Data.HashMap
@@ -314,11 +315,11 @@ def handle (cmd : String) (args : List String) : Option String :=
     | _ => "bad-args"
   | "schedd-acceptw" =>
     some <| match args with
-    | [n, ti, to, u, sm, evs] =>
-      match n.toNat?, ti.toNat?, to.toNat?, u.toNat?, sm.toNat? with
-      | some n, some ti, some to, some u, some sm =>
-        LbzVerif.Lemmas.SchedD.acceptTraceW n ti to (u != 0) sm evs
-      | _, _, _, _, _ => "bad-args"
+    | [n, ti, to, u, sm, hg, evs] =>
+      match n.toNat?, ti.toNat?, to.toNat?, u.toNat?, sm.toNat?, hg.toNat? with
+      | some n, some ti, some to, some u, some sm, some hg =>
+        LbzVerif.Lemmas.SchedD.acceptTraceW n ti to (u != 0) sm (hg != 0) evs
+      | _, _, _, _, _, _ => "bad-args"
     | _ => "bad-args"
   | _ => none
 
